@@ -413,7 +413,9 @@ def check_cov_counts(facts, chk, rule, tier):
     cases = [(['ACCACAG', 'CCACAGT', 'GNTTGACCAC'], ['CTGTGGT', 'ACCACTG']),
              (['AAAAAAA'], ['TTTTTT', 'AANAAAAA']),
              (['ACGTACG', 'NNNNN', 'ACG'], ['CGTACGT']),
-             (['GATTACAGATTACA'], ['TGTAATCTGTAATC', 'GATTACA'])]
+             (['GATTACAGATTACA'], ['TGTAATCTGTAATC', 'GATTACA']),
+             # reads without any N-free window (too short, N-ridden) at the start and in the middle of a file: the reads after them still count
+             (['ACCAC', 'NNANN', 'ACG', 'CCACAGT', 'ACNAC', 'ACCACAG'], ['TTG', 'GTGGTAC', 'CTGTGGT'])]
     if tier == 'thorough':
         import itertools
         cases += [([''.join(t)], ['ACCAC']) for t in itertools.product('ACN', repeat=6)]
